@@ -2,6 +2,9 @@ package main
 
 import (
 	"bytes"
+
+	"golang.org/x/tools/go/ssa"
+	"go/token"
 	"go/types"
 	"context"
 	"fmt"
@@ -21,7 +24,8 @@ const preamble = `(declare-fun strkey ((Array Int Int) Int Int) Int)
 (declare-fun subIdx (Int) Int)
 (assert (forall ((r Int) (k Int)) (! (and (= (subBase (sub r k)) r) (= (subIdx (sub r k)) k) (< (sub r k) 0)) :pattern ((sub r k)))))
 (define-fun streq ((a1 (Array Int Int)) (o1 Int) (n1 Int) (a2 (Array Int Int)) (o2 Int) (n2 Int)) Bool
-  (and (= n1 n2) (forall ((j Int)) (=> (and (<= o1 j) (< j (+ o1 n1))) (= (select a1 j) (select a2 (+ o2 (- j o1))))))))
+  (and (= n1 n2) (forall ((j Int)) (! (=> (and (<= o1 j) (< j (+ o1 n1))) (= (select a1 j) (select a2 (+ o2 (- j o1))))) :pattern ((select a1 j))))
+       (forall ((j Int)) (! (=> (and (<= o2 j) (< j (+ o2 n2))) (= (select a2 j) (select a1 (+ o1 (- j o2))))) :pattern ((select a2 j))))))
 `
 
 // specFuncSMT renders the spec functions in `used` (transitively closed) in dependency order.
@@ -199,6 +203,7 @@ type Obligation struct {
 	Model   map[string]string
 	Raw     string
 	Lemma   bool
+	Blk     *ssa.BasicBlock
 }
 
 // queries builds one SMT query per assertion of an encoded function.
@@ -280,13 +285,21 @@ func (e *Enc) queries(extraAxioms string) []*Obligation {
 			canary := it.Canary
 			if canary && e.spec != nil {
 				for _, d := range e.spec.Dead {
+					if strings.HasPrefix(d, "src:") {
+						// `dead src:<text>`: the canary whose source line contains <text>
+						if it.Pos.IsValid() && strings.Contains(srcLine(e.W, it.Pos), strings.TrimPrefix(d, "src:")) {
+							canary = false
+							it.Class = "dead"
+						}
+						continue
+					}
 					if strings.HasSuffix(it.Name, "#canary."+d) {
 						canary = false // declared dead code: unreachability is a proof obligation
 						it.Class = "dead"
 					}
 				}
 			}
-			out = append(out, &Obligation{Name: it.Name, Class: it.Class, Src: it.Src, Where: w, Canary: canary, SMT: q, SMTLean: lean, Values: values, HasRec: hasRec, Func: e.key})
+			out = append(out, &Obligation{Name: it.Name, Class: it.Class, Src: it.Src, Where: w, Canary: canary, SMT: q, SMTLean: lean, Values: values, HasRec: hasRec, Func: e.key, Blk: it.Blk})
 			if !it.Canary {
 				// later obligations may assume this one (well-founded: program order)
 				addFact(imp(it.Guard, it.Term))
@@ -510,4 +523,20 @@ func (e *Enc) implAxioms() string {
 		}
 	}
 	return b.String()
+}
+
+var srcCache = map[string][]string{}
+
+func srcLine(w *World, pos token.Pos) string {
+	p := w.Fset.Position(pos)
+	ls, ok := srcCache[p.Filename]
+	if !ok {
+		b, _ := os.ReadFile(p.Filename)
+		ls = strings.Split(string(b), "\n")
+		srcCache[p.Filename] = ls
+	}
+	if p.Line >= 1 && p.Line <= len(ls) {
+		return ls[p.Line-1]
+	}
+	return ""
 }
